@@ -21,6 +21,15 @@ def big_meshes(tier, seed):
                 out.append(families.mesh(rng, m, n, algo, rng.random() < 0.3, sides=sides,
                                          dir_end=rng.choice(["dst", "src"]), side_role=rng.choice(["s", "ms", "m"]),
                                          undirected_sides=rng.random() < 0.3))
+    # every boundary side alone and the usual pairs, boundary endpoints as subordinates and as managers: a
+    # tie-break among equally short paths that depends on the declaration order shows on particular sides only
+    small = [(2, 2), (3, 3), (3, 2)] if tier == "quick" else [(2, 2), (3, 3), (3, 2), (2, 3), (4, 4), (4, 3)]
+    for algo in ALGOS:
+        for (m, n) in small:
+            for sides in [("N",), ("E",), ("S",), ("W",), ("E", "N"), ("W", "S"), ("W", "E", "S", "N")]:
+                for role in ("s", "m"):
+                    out.append(families.mesh(rng, m, n, algo, False, sides=sides, dir_end="dst", side_role=role,
+                                             undirected_sides=False))
     return [(d, t) for d, t in out if d is not None]
 
 
